@@ -1,9 +1,311 @@
-import Driver.Util
-/-! Driver for C09: not built yet. -/
+import Driver.TransportCommon
+/-! Driver for C09 (unit level): model correspondence + the property's clauses that are observable
+on one node, evaluated on the implementation's own outputs:
+* give-up: a message is transmitted at most `1 + budget` times, never fewer than `budget` times
+  before giving up, and the give-up is reported as `TxTimeout` and leaves nothing pending;
+* the retransmission of a message stops only on an acknowledgement of exactly its counter
+  (one acknowledgement suffices) or on the give-up;
+* back-off: the entry's delay is never below the protocol's lower bound
+  `base · 1.1 · 1.6^max(0, n−1)` (up to the integer-division rounding of the ladder), and the ladder
+  is monotone in the attempt number;
+* a received message that requested an acknowledgement is acknowledged by the next message sent;
+* (sessions) a counter is handed to the exchange layer at most once on a secure session. -/
 namespace Driver.C09
+open Driver.TC
 
-def run : IO UInt32 := do
-  IO.eprintln "C09: driver not built yet"
-  return 2
+/-- parsed `t<c>/<n> a<c>/<k> R|-` -/
+structure IMrp where
+  rt : Option (Nat × Nat) := none
+  ak : Option (Nat × Bool) := none
+deriving Inhabited
+
+def parseIMrp (s : String) : IMrp :=
+  match words s with
+  | t :: a :: _ =>
+    { rt := parsePair ((t.drop 1).toString),
+      ak := (parsePair ((a.drop 1).toString)).map (fun p => (p.1, p.2 == 1)) }
+  | _ => {}
+
+/-- rounding allowance (ms) of `k` nested integer divisions by 10 in the ladder: ⌈0.9·Σ 1.6^i⌉ -/
+def allowance (k : Nat) : Nat := [1, 3, 5, 9, 15, 24, 39, 63, 102].getD k 200
+
+/-- `delay ≥ base·11·16^k / (10·10^k) − allowance`, in integers -/
+def aboveSpecLower (base attempt delay : Nat) (jitter : Nat := 0) : Bool :=
+  let k := attempt - 1
+  -- with the jitter byte the sender loop uses (100) or more and a base of at least 200 ms the
+  -- rounding is absorbed: demand the bound exactly
+  let a := if jitter ≥ 100 && base ≥ 200 then 0 else allowance k
+  (delay + a) * 10 * 10 ^ k ≥ base * 11 * 16 ^ k
+
+/-- the protocol's retransmission budget as the code names it (`MRP_MAX_TRANSMISSIONS`) -/
+def budget : Nat := Consts.mrpMaxTransmissions
+
+structure Pend where
+  key : Nat × Nat   -- (session uid, slot); (0,0) for the bare mrp cases
+  ctr : Nat
+  base : Nat
+  tx : Nat          -- transmissions so far
+  lastDelay : List (Nat × Nat × Nat) := []  -- (jitter, attempt, delay)
+
+structure OSt where
+  pend : List Pend := []
+  prevM : IMrp := {}
+  prev : ISnap := {}
+  /-- counters handed to the exchange layer, per secure session -/
+  accepted : List (Nat × Nat) := []
+
+structure St where
+  m : MSt := {}
+  o : OSt := {}
+
+def baseOf (tok : String) : Nat :=
+  match tok.toNat? with
+  | some v => if v > 0 then v else 300
+  | none => 300
+
+/-- the budget clause for one send attempt of a message that was transmitted `tx` times before -/
+def budgetVerdict (tx : Nat) (ok timeout : Bool) : Option String :=
+  if ok && tx ≥ budget + 1 then some s!"transmission number {tx + 1} succeeded: budget exceeded"
+  else if timeout && tx < budget then some s!"gave up after only {tx} transmissions"
+  else none
+
+def oracleMrp (o : OSt) (w : List String) (res : String) (st : IMrp) : OSt × Option String :=
+  let n (i : Nat) : Nat := ((w.getD i "").toNat?).getD 0
+  let rw := words res
+  let cur := o.pend.head?
+  let fin (o : OSt) (v : Option String) : OSt × Option String := ({ o with prevM := st }, v)
+  match w.getD 0 "" with
+  | "ps" =>
+    let rel := w.getD 2 "" = "r"
+    let ok := rw.head? = some "ok"
+    let timeout := res = "err TxTimeout"
+    -- acknowledgement piggy-backed?
+    let ackBad : Option String :=
+      match o.prevM.ak with
+      | some (a, _) =>
+        if !ok || rw.getD 2 "-" = toString a then none
+        else some s!"pending acknowledgement {a} not carried by the message sent: '{res}'"
+      | none => none
+    if !rel then fin o ackBad else
+    match cur with
+    | some p =>
+      if p.ctr != n 1 then fin o ackBad  -- wrong counter on a pending entry: the code panics, nothing demanded
+      else
+        let v := budgetVerdict p.tx ok timeout
+        let v := match v with
+          | some x => some x
+          | none =>
+            if timeout && st.rt.isSome then some "gave up but a retransmission is still pending"
+            else if !ok && !timeout then some s!"send attempt failed with '{res}' instead of TxTimeout"
+            else ackBad
+        let o' := if ok then { o with pend := [{ p with tx := p.tx + 1 }] } else { o with pend := [] }
+        fin o' v
+    | none =>
+      if ok then
+        let p : Pend := { key := (0, 0), ctr := n 1, base := baseOf (w.getD 4 "-"), tx := 1 }
+        fin { o with pend := if st.rt.isSome then [p] else [] } ackBad
+      else fin o (some s!"first transmission failed: '{res}'")
+  | "pr" =>
+    let ack := optNat (w.getD 2 "-")
+    let v : Option String :=
+      match cur with
+      | some p =>
+        if ack = some p.ctr then
+          if res = "ok" && st.rt.isNone then none else some s!"acknowledgement of {p.ctr} did not stop the retransmission: '{res}'"
+        else if st.rt.isNone then some s!"retransmission of {p.ctr} stopped without a matching acknowledgement"
+        else none
+      | none => none
+    let v := match v with
+      | some x => some x
+      | none =>
+        if res = "ok" && w.getD 3 "" = "r" && st.ak != some (n 1, false) then
+          some s!"reliable message {n 1} accepted but no acknowledgement is pending for it"
+        else none
+    let o' := if st.rt.isNone then { o with pend := [] } else o
+    fin o' v
+  | "dl" =>
+    match cur, res.toNat? with
+    | some p, some d =>
+      let attempt := p.tx - 1
+      let low := aboveSpecLower p.base attempt d (n 1)
+      let mono := p.lastDelay.all (fun (j, a, dd) => !(j == n 1) || (if a ≤ attempt then dd ≤ d else d ≤ dd))
+      let p' := { p with lastDelay := (n 1, attempt, d) :: p.lastDelay }
+      fin { o with pend := [p'] }
+        (if !low then some s!"delay {d} ms before retransmission {attempt + 1} is below the protocol's back-off for base {p.base}"
+         else if !mono then some s!"back-off ladder not monotone: {d} ms at attempt {attempt}"
+         else none)
+    | some _, none => fin o (some "no delay although a retransmission is pending")
+    | none, _ => fin o none
+  | "bo" =>
+    let d := res.toNat?.getD 0
+    fin o (if aboveSpecLower (n 1) (n 2) d (n 3) then none
+           else some s!"backoff_ms({n 1},{n 2},{n 3}) = {d} is below the protocol's lower bound")
+  | _ => fin o none
+
+def slotOf (snap : ISnap) (uid sl : Nat) : Option ISlot := (snap.sess uid).bind (fun s => s.slots.getD sl none)
+
+def oracleTab (o : OSt) (w : List String) (res : String) (snap : ISnap) : OSt × Option String :=
+  let n (i : Nat) : Nat := ((w.getD i "").toNat?).getD 0
+  let rw := words res
+  let fin (o : OSt) (v : Option String) : OSt × Option String :=
+    -- forget pending entries whose slot no longer holds that exchange/counter
+    ({ o with prev := snap, pend := o.pend.filter (fun p => (slotOf snap p.key.1 p.key.2).any (fun x => x.rt.any (fun q => q.1 == p.ctr))) }, v)
+  -- a pending retransmission may disappear only by a matching acknowledgement, the give-up, or
+  -- together with its exchange/session
+  let vanished : Option String :=
+    o.pend.findSome? (fun p =>
+      match slotOf o.prev p.key.1 p.key.2, slotOf snap p.key.1 p.key.2 with
+      | some a, some b =>
+        if a.id == b.id && a.role == b.role && b.rt.isNone then
+          let byAck := w.getD 0 "" = "rx" && n 1 == p.key.1 && optNat (w.getD 5 "-") = some p.ctr
+          let byTimeout := w.getD 0 "" = "tx" && res = "err TxTimeout"
+          if byAck || byTimeout then none
+          else some s!"retransmission of {p.ctr} (session {p.key.1} slot {p.key.2}) stopped without a matching acknowledgement or give-up"
+        else none
+      | _, _ => none)
+  match w.getD 0 "" with
+  | "tx" =>
+    match (w.getD 2 "-").toNat? with
+    | none => fin o vanished
+    | some sl =>
+      let uid := n 1
+      let ok := rw.head? = some "ctr"
+      let timeout := res = "err TxTimeout"
+      let rel := w.getD 3 "" = "r"
+      match o.pend.find? (fun p => p.key == (uid, sl)) with
+      | some p =>
+        if !rel then fin o vanished else
+        let v := budgetVerdict p.tx ok timeout
+        let v := match v with
+          | some x => some x
+          | none =>
+            if timeout && (slotOf snap uid sl).any (·.rt.isSome) then some "gave up but a retransmission is still pending"
+            else if !ok && !timeout && res != "panic" then some s!"send attempt failed with '{res}' instead of TxTimeout"
+            else vanished
+        let pend' := o.pend.filter (fun q => q.key != (uid, sl))
+        fin { o with pend := if ok then { p with tx := p.tx + 1 } :: pend' else pend' } v
+      | none =>
+        if ok && rel then
+          let c := (field' rw "ctr").getD 0
+          let isPend := (slotOf snap uid sl).any (fun x => x.rt.any (fun q => q.1 == c))
+          let p : Pend := { key := (uid, sl), ctr := c, base := baseOf (w.getD 6 "-"), tx := 1 }
+          fin { o with pend := if isPend then p :: o.pend else o.pend } vanished
+        else fin o vanished
+  | "rx" =>
+    let uid := n 1
+    let secure := (snap.sess uid).any (fun s => s.mode != "x")
+    let delivered := res = "new" || res = "old"
+    let twice := secure && delivered && o.accepted.contains (uid, n 2)
+    let o' := if delivered then { o with accepted := (uid, n 2) :: o.accepted } else o
+    fin o' (if twice then some s!"counter {n 2} handed to the exchange layer twice on secure session {uid}" else vanished)
+  | "rm" | "evictrm" => fin { o with accepted := o.accepted.filter (·.1 != n 1) } vanished
+  | _ => fin o vanished
+where
+  field' (ws : List String) (k : String) : Option Nat :=
+    match ws.dropWhile (· != k) with
+    | _ :: v :: _ => v.toNat?
+    | _ => none
+
+/-! ### system-level trace monitor (`sys` cases: two real nodes over the adversarial network)
+Written from the property text; looks only at the logged send results, the receiving application's
+log and the wire. -/
+
+structure Wire where
+  t : Nat
+  src : Nat
+  /-- copies the network delivered: 0 (dropped), 1, 2 (duplicated) -/
+  copies : Nat
+  /-- the network held this datagram back -/
+  delayed : Bool
+  ctr : Nat
+  flags : Nat
+  ack : Option Nat
+  /-- message number, for datagrams that request an acknowledgement -/
+  num : Option Nat
+
+def parseWire (s : String) : Option Wire :=
+  match s.splitOn ":" with
+  | [t, f, v, c, xf, a, i] =>
+    some { t := t.toNat?.getD 0, src := f.toNat?.getD 0,
+           copies := if v = "x" then 0 else if v = "2" then 2 else 1, delayed := v.startsWith "l",
+           ctr := c.toNat?.getD 0, flags := xf.toNat?.getD 0, ack := a.toNat?, num := i.toNat? }
+  | _ => none
+
+def kv (ws : List String) (k : String) : String :=
+  match ws.find? (·.startsWith (k ++ "=")) with
+  | some w => (w.drop (k.length + 1)).toString
+  | none => ""
+
+def strictlyIncreasing : List Nat → Bool
+  | a :: b :: rest => a < b && strictlyIncreasing (b :: rest)
+  | _ => true
+
+def sysMonitor (res : String) : Option String :=
+  let ws := words res
+  let base := (kv ws "base").toNat?.getD 300
+  let results := (kv ws "res").splitOn "," |>.filter (· != "")
+  let app := ((kv ws "app").splitOn ",").filterMap (·.toNat?)
+  let wire := ((kv ws "wire").splitOn ",").filterMap parseWire
+  -- 1. at most once, in sending order
+  if !strictlyIncreasing app then some s!"application received {app}: not at most once / not in sending order" else
+  -- 2. success only if the peer received it; no other outcome than success or the transmit timeout
+  match (results.zipIdx).findSome? (fun (r, i) =>
+      if r = "ok" then (if app.contains i then none else some s!"send {i} succeeded but the peer's application never received it")
+      else if r = "TxTimeout" then none
+      else some s!"send {i} ended with '{r}' (neither success nor transmit timeout)") with
+  | some v => some v
+  | none =>
+  -- 3. per message: transmissions, budget, back-off
+  let perMsg (i : Nat) : Option String :=
+    let txs := wire.filter (fun w => w.src == 1 && w.num == some i)
+    let times := txs.map (·.t)
+    let r := results.getD i "-"
+    let gaps := (times.zip (times.drop 1)).zipIdx
+    let early := gaps.findSome? (fun ((a, b), k) =>
+      if aboveSpecLower base k (b - a) 100 then none
+      else some s!"message {i}: retransmission {k + 1} after {b - a} ms, earlier than the protocol's back-off for base {base}")
+    match early with
+    | some v => some v
+    | none =>
+      if txs.length > budget + 1 then some s!"message {i} transmitted {txs.length} times: budget exceeded"
+      else if r = "TxTimeout" && txs.length < budget then some s!"message {i}: gave up after {txs.length} transmissions"
+      else if r = "TxTimeout" && txs.any (fun w => w.copies > 0 &&
+          -- an acknowledgement of it that reached the sender (undelayed) while it was still retransmitting
+          wire.any (fun a => a.src == 0 && a.ack == some w.ctr && a.copies > 0 && !a.delayed &&
+            a.t ≤ (times.getLast?.getD 0))) then
+        some s!"message {i}: a transmission and an acknowledgement got through, yet the call failed"
+      else none
+  match (List.range results.length).findSome? perMsg with
+  | some v => some v
+  | none =>
+  -- 4. every delivered copy of a message that requested an acknowledgement is acknowledged
+  let ctrs := (wire.filter (fun w => w.src == 1 && w.flags % 8 ≥ 4)).map (·.ctr) |>.eraseDups
+  ctrs.findSome? (fun c =>
+    let delivered := (wire.filter (fun w => w.src == 1 && w.ctr == c)).foldl (fun n w => n + w.copies) 0
+    let acks := (wire.filter (fun w => w.src == 0 && w.ack == some c)).length
+    if acks < delivered then some s!"counter {c} was delivered {delivered} times but acknowledged only {acks} times" else none)
+
+def step (st : St) (line : String) : St × String :=
+  let (op, out) := splitArrow line
+  match words op with
+  | "case" :: _ :: kind => ({ m := newCase kind }, "case")
+  | "flow" :: _ =>
+    match sysMonitor out with
+    | some why => (st, s!"ORA {why}")
+    | none => (st, "ok")
+  | w =>
+    let (res, stateS) := splitHash out
+    let (m', dis) := modelStep st.m op out
+    let (o', ora) := if st.m.isMrp then oracleMrp st.o w res (parseIMrp stateS)
+                     else oracleTab st.o w res (parseSnap stateS)
+    let st' : St := { m := m', o := o' }
+    match ora with
+    | some why => (st', s!"ORA {why}")
+    | none =>
+      match dis with
+      | some mo => (st', s!"DIS {mo}")
+      | none => (st', "ok")
+
+def run : IO UInt32 := Driver.runLoop ({} : St) step
 
 end Driver.C09
